@@ -5,8 +5,8 @@ package codon
 // C18: combining codon tables adds or averages usage and keeps the code.
 //
 // verif:bound C18 add clause: two full 64-codon tables of codes 1/2/11 (quick) or any of the 25 codes (thorough) with 128 symbolic 64-bit weights in [-2^40, 2^40]: every weight is the sum, letters / triplets / start and stop codons are the first table's
-// verif:bound C18 compromise clause: one amino acid with 2 (quick) / 2..3 (thorough) synonymous codons, weights of both tables enumerated over 0..3 (quick) / 0..5 (thorough) with at least one positive weight per table, cut-off a symbolic real in [-1, 2]
-// verif:bound C18 composition clause: compromise of two mini tables (weights enumerated 0..3 | 0..4, cut-off in {0, 0.2, 0.5, 1}) handed to Optimize: an error when no codon survives, otherwise the emitted codon has both shares at or above the cut-off
+// verif:bound C18 compromise clause: one amino acid with 2 (quick) / 2..3 (thorough) synonymous codons, weights of both tables enumerated over 0..3 (quick) / 0..5 with 2 codons and 0..2 with 3 codons (thorough) with at least one positive weight per table, cut-off a symbolic real in [-1, 2]
+// verif:bound C18 composition clause: compromise of two mini tables (weights enumerated 0..3 | 0..4 with 2 codons and 0..3 with 3 codons, cut-off in {0, 0.2, 0.5, 1}) handed to Optimize: an error when no codon survives, otherwise the emitted codon has both shares at or above the cut-off
 // verif:assume C18 compromise: the shares int(float64(w)/float64(t)*10000) are computed concretely with real float64 arithmetic (weights are concrete on each path); only the cut-off is symbolic and int(10000*cutOff) is abstracted to real arithmetic with truncation (rounding of that product is outside the claim)
 // verif:bound C18 outside the claim: floating-point rounding of 10000*cutOff; tables re-weighted from long random sequences; fully symbolic weights in the compromise
 
@@ -70,6 +70,9 @@ func Harness_C18_Compromise() {
 	vRealMode()
 	k := 2 + vChoice(vTier(1, 2))
 	hi := vTier(4, 6)
+	if k == 3 {
+		hi = 3
+	}
 	w1 := make([]int, k)
 	w2 := make([]int, k)
 	t1, t2 := 0, 0
@@ -141,6 +144,9 @@ func Harness_C18_Compromise() {
 func Harness_C18_OptimiseWithCompromise() {
 	k := 2 + vChoice(vTier(1, 2))
 	hi := vTier(4, 5)
+	if k == 3 {
+		hi = 4
+	}
 	w1 := make([]int, k)
 	w2 := make([]int, k)
 	t1, t2 := 0, 0
